@@ -1107,6 +1107,9 @@ class Executor:
     # ------------------------------------------------------------ calls
     PANIC_RE = re.compile(r"panicking::|::panic_fmt|unwrap_failed|expect_failed|slice_index_fail|slice_start_index_len_fail|slice_end_index_len_fail|panic_bounds_check|::begin_panic|assert_failed|unreachable_display|core::panicking")
 
+    STD_MUTATOR_RE = re.compile(r"^(?:std::(?:vec|collections)::)?(?:Vec|VecDeque|AHashMap|HashMap|AHashSet|HashSet|LinkedList|BTreeMap|BTreeSet)::<.*>::"
+                                r"(remove|swap_remove|retain|retain_mut|clear|drain|truncate|pop|pop_front|pop_back|push|push_front|push_back|insert|append|extend|extend_from_slice|dedup|dedup_by_key|"
+                                r"sort|sort_by|sort_unstable|sort_unstable_by|sort_by_key|reverse|resize|split_off|swap|fill|remove_entry|take)(?:::<.*>)?$")
     ALLOC_RE = re.compile(r"(?:Vec|VecDeque|String|AHashMap|HashMap|AHashSet|HashSet)(?:::<(.*)>)?::(?:with_capacity|reserve|reserve_exact|resize)$|vec::from_elem::<(.*)>$")
 
     def exec_call(self, st, term, outcomes):
@@ -1196,6 +1199,16 @@ class Executor:
         if body is not None and fr.depth < self.max_depth:
             return self.push_frame(st, body, args, dest, ret_bb)
         # uninterpreted
+        mm = self.STD_MUTATOR_RE.search(callee)
+        if mm and args and isinstance(args[0], Ref):
+            try:
+                tgt = self.deref_value(args[0])
+            except Exception:
+                tgt = None
+            if isinstance(tgt, (Seq, MapV, Bytes)):
+                # a std method that changes a container this exploration tracks precisely, and no model for it:
+                # neither "pure" nor a havoc of the whole container would be a faithful answer
+                raise Unsupported("unmodelled mutation of a modelled container: %s" % callee[:100])
         res = self.fresh("ret:" + self.strip_generics(callee).split("::")[-1], dest_ty)
         frame_preserving = any(re.search(p, callee) for p in self.pure)
         for a in args:
